@@ -67,7 +67,7 @@ func (P *Prog) recDefs(reveal func(name string) bool) string {
 func (P *Prog) buildRecDef(sf *SpecFunc) string {
 	x := &Exec{P: P, key: "spec." + sf.Name, usedExt: map[string]bool{}, inlined: map[string]bool{}}
 	st := &State{declSet: map[string]bool{}, heaps: map[string]string{}, hsort: map[string]string{}, cells: map[*Cell]Val{},
-		written: map[string]bool{}, ghost: map[string]string{}}
+		written: map[string]bool{}, ghost: map[string]string{}, boolDef: map[string]string{}, factSet: map[string]bool{}}
 	st.top = "0"
 	env := &Env{st: st, vars: map[string]Val{}, pkg: sf.Pkg}
 	var binders, sorts, args []string
